@@ -91,9 +91,10 @@ theorem describeInv_step (w : World) (s : BState) (op : Op) (h : DescribeInv w s
               | none =>
                 rw [Res.andThen_of_ok _ _ hee] at he ⊢
                 simp only at he ⊢
-                split at he
-                · simp at he
-                · -- cached by ensureCached: either it was, or it has just been set
+                by_cases hcol : collides (ensureCached w s ro false).st ro = true
+                · simp [hcol] at he
+                · simp only [hcol, Bool.false_eq_true, if_false, Res.ok_st]
+                  -- cached by ensureCached: either it was, or it has just been set
                   by_cases hcc : ahas s.describeCache ro = true
                   · obtain ⟨ks, hks⟩ := (ahas_iff _ _).1 hcc
                     exact (ahas_iff _ _).2 ⟨ks, (KeepsDescribeCache.keeps_ensureCached w s ro false).1 ro ks hks⟩
